@@ -49,6 +49,14 @@ def abstract_machine(rng, with_any=False):
             src = rng.choice(nonfinal)  # one source, many targets
             for t_ in rng.sample(ids, min(len(ids), rng.randint(3, 4))):
                 d["trans"].append({"src": src, "tgt": t_, "evs": list(ev), "internal": False})
+    if rng.random() < 0.3:
+        # an event whose transitions are a strict prefix of another event's: `step = t1 | t2` and `cycle = step | t3`
+        ids = [s["id"] for s in d["states"]]
+        nonfinal = [s["id"] for s in d["states"] if not s["final"]]
+        for _ in range(rng.randint(2, 3)):
+            d["trans"].append({"src": rng.choice(nonfinal), "tgt": rng.choice(ids), "evs": ["chain1", "chain2"], "internal": False})
+        for _ in range(rng.randint(1, 2)):
+            d["trans"].append({"src": rng.choice(nonfinal), "tgt": rng.choice(ids), "evs": ["chain2"], "internal": False})
     if with_any:
         ids = [s["id"] for s in d["states"]]
         nonfinal = [s["id"] for s in d["states"] if not s["final"]]
@@ -144,10 +152,22 @@ def render(rng, d, style):
                 if e not in order:
                     order.append(e)
         # a transition's own event order must be a subsequence of the attribute order
+        acc_of = {}
         for e in order:
             hs = handles_of_event[e]
             acc = hs[0]
-            if len(hs) > 1 and rng.random() < 0.5:
+            # a NAMED `|` result (the list already bound to an earlier event) reused as the left operand of the next
+            # event's list:  step = t1 | t2 ; cycle = step | t3
+            pre = [e0 for e0 in acc_of if 2 <= len(handles_of_event[e0]) < len(hs)
+                   and hs[:len(handles_of_event[e0])] == handles_of_event[e0]]
+            if pre and rng.random() < 0.7:
+                e0 = max(pre, key=lambda x: len(handles_of_event[x]))
+                acc = acc_of[e0]
+                for x in hs[len(handles_of_event[e0]):]:
+                    nh = newh()
+                    body.append({"op": "or", "h": nh, "a": acc, "b": x})
+                    acc = nh
+            elif len(hs) > 1 and rng.random() < 0.5:
                 # right-nested association:  h1 | (h2 | (h3 ...))
                 acc = hs[-1]
                 for x in reversed(hs[:-1]):
@@ -165,6 +185,7 @@ def render(rng, d, style):
                 # carries a second event it would run for that event too - not the same machine any more
                 est = "attr"
             body.append({"op": "event", "name": e, "h": acc, "style": est})
+            acc_of[e] = acc
     if anys:
         if style == "any":
             h = newh()
